@@ -18,6 +18,11 @@ Property theorems about `Model/Determinism.lean`:
   every finished generation its solo output), `C11_schedule_progress` (a generation finishes as
   soon as it was scheduled `nsteps` times, so every fair schedule finishes all of them);
   `C11_history_matters_if_init_depends_on_input` is the negation witness for the hypothesis;
+* the one kind of shared MUTABLE state found by the inventory — the scratch files of
+  `--clang-macro-fallback`, whose names do not depend on the generation — is outside that
+  hypothesis: `C11_shared_scratch_sites` pins the four sites, `C11_scratch_file_sequential_ok`
+  shows histories are unaffected, `C11_scratch_file_interleaving_witness` shows what
+  interleaving does (known finding `macro_fallback_shared_scratch_files`);
 * `C11_all_sites_classified`: every site of the regenerated inventory (`Generated/Sites.lean`
   (a) process-wide state, (b) hash iterations) has a row in the committed classification.
 -/
@@ -438,11 +443,36 @@ theorem C11_findUnique_sites :
     (iterClasses.filter (fun r => r.2.1 == ConsumerClass.findUnique)).map (·.1)
       = [931047457799873773, 353906315918619630] := by decide
 
+/-- the excluded region of `C11_interleaving_irrelevant`: the only sites that are shared MUTABLE
+    state (a scratch file at a generation-independent path) are the four of the
+    `--clang-macro-fallback` translation unit -/
+theorem C11_shared_scratch_sites :
+    (stateClasses.filter (fun r => r.2.1 == StateClass.sharedScratchFile)).map (·.1)
+      = [865492049953808878, 1029920217957333306, 707024884831842029, 937651750378931466] := by decide
+
+/-- run one after the other, generations sharing the scratch file still read their own content -/
+theorem C11_scratch_file_sequential_ok (hist : List Nat) (file : Option Nat) :
+    fRunHistory hist file = hist.map (fun i => some (some i)) := by
+  induction hist generalizing file with
+  | nil => rfl
+  | cons i rest ih =>
+    simp only [fRunHistory, map_cons]
+    rw [ih]
+    rfl
+
+/-- negation on the excluded region: interleaved, a generation reads the OTHER generation's file
+    (first schedule) or finds it deleted (second schedule: the other one finished in between) -/
+theorem C11_scratch_file_interleaving_witness :
+    ((fRunSched [0, 1, 0] (none, [fFresh 7, fFresh 9])).2.map (·.seen))[0]? = some (some (some 9)) ∧
+    ((fRunSched [0, 1, 1, 1, 0] (none, [fFresh 7, fFresh 9])).2.map (·.seen))[0]? = some (some none) := by
+  decide
+
 /-- no environment-MUTATING call (`set_var`, `remove_var`, `set_current_dir`) exists: every
     `env` site is classified as a read (`envInput`), a hook or the build script -/
 theorem C11_state_classes_closed :
     stateClasses.all (fun r => r.2.1 == .immutableConst || r.2.1 == .writeOnceConst ||
       r.2.1 == .writeOnceEnv || r.2.1 == .envInput || r.2.1 == .perGenerationCell ||
-      r.2.1 == .hookOnly || r.2.1 == .buildScript) = true := by decide
+      r.2.1 == .hookOnly || r.2.1 == .buildScript || r.2.1 == .declaredOutput ||
+      r.2.1 == .sharedScratchFile) = true := by decide
 
 end BindgenModel.Determinism
